@@ -102,7 +102,7 @@ def cases(draw):
                 if p[1] == 0.0:
                     p[1] = 1e-4 * cfg["beta"]
     if draw(st.booleans()):
-        g2 = draw(gen.games(cfg=cfg, max_teams=4, max_size=4, allow_zero_sigma=True, regimes=["corner", "generic", "identical"]))
+        g2 = draw(gen.games(cfg=cfg, max_teams=4, max_size=4, allow_zero_sigma=True, regimes=["corner", "generic", "identical", "team_corner", "team_corner"]))
         tau2 = eff_tau(cfg, g2["call"])
         if tau2 < 1e-6 * cfg["beta"]:
             for t in g2["teams"]:
